@@ -687,8 +687,10 @@ func FuzzDecoders(f *testing.F) {
 			t.Fatalf("overwrite|accepted-outside-grammar: %q parsed as %v", s, v)
 		}
 		var h internal.Href
-		if err := h.UnmarshalText([]byte(s)); err == nil && strings.HasPrefix(h.Path, "/") && h.Host == "" && h.Scheme == "" && h.Opaque == "" {
-			// the property's domain: absolute paths
+		if err := h.UnmarshalText([]byte(s)); err == nil && strings.HasPrefix(h.Path, "/") && !strings.HasPrefix(h.Path, "//") && h.Host == "" && h.Scheme == "" && h.Opaque == "" {
+			// the property's domain: absolute paths whose first segment is not empty (a path that begins with two
+			// slashes cannot be written as a reference without a host: "/%2F " reads as path "// ", which net/url
+			// writes as "//%20" - a host; false alarm of this target found by the thorough run of round 7, see DESIGN.md section 10)
 			var h2 internal.Href
 			if err := h2.UnmarshalText([]byte(h.String())); err != nil || h2.Path != h.Path {
 				t.Fatalf("href|reencode: %q -> %q -> path %q vs %q, %v", s, h.String(), h2.Path, h.Path, err)
